@@ -1,7 +1,7 @@
 //verif:overlay share/shwap/zz_verif_c02.go
 //verif:include ../C01/model.go
 //verif:bound namespace data: honest ODS of width 2 whose 4 cells carry namespaces from {A<B<C} in any sorted (non-decreasing, row-major) assignment with symbolic contents, row trees committed through the real wrapper/nmt code over the ideal hash/codec; requested namespace: A, B, C, one strictly between A and B, one above C; response: an ARBITRARY NamespaceData value - 0..3 rows, each with 0..2 shares (namespace by choice, symbolic contents) and a proof that is absent, an inclusion proof or an absence proof with symbolic start/end, 0..2 arbitrary nodes and an arbitrary leaf hash
-//verif:outside the second proof producer that walks cached NMT nodes (share/ipld, eds/proofs_cache.go): its agreement with the direct producer is a statement about real hashes
+//verif:outside the second proof producer that walks cached NMT nodes (share/ipld, eds/proofs_cache.go): executed by the C05 check (group C05.ipld), not here
 package shwap
 
 import (
